@@ -8,6 +8,7 @@ import (
 	stakingtypes "github.com/cosmos/cosmos-sdk/x/staking/types"
 
 	assetstypes "github.com/ExocoreNetwork/exocore/x/assets/types"
+	delegationtypes "github.com/ExocoreNetwork/exocore/x/delegation/types"
 	avstypes "github.com/ExocoreNetwork/exocore/x/avs/types"
 	operatortypes "github.com/ExocoreNetwork/exocore/x/operator/types"
 	oracletypes "github.com/ExocoreNetwork/exocore/x/oracle/types"
@@ -71,6 +72,11 @@ func (f *Full) SymPool(tag string, o int, assetID string, bits int) (assetstypes
 	info := assetstypes.OperatorAssetInfo{TotalAmount: T, PendingUndelegationAmount: P, TotalShare: S, OperatorShare: OS}
 	f.Env.Ctx = f.Ctx
 	f.Env.PutOperatorAsset(o, assetID, info)
+	// the delegator list is exactly the set with non-zero shares: staker 2 holds the whole pool
+	if S.IsPositive() {
+		f.Env.PutDelegation(2, o, assetID, delegationtypes.DelegationAmounts{UndelegatableShare: S, WaitUndelegationAmount: sdkmath.ZeroInt()})
+		verifrt.Assume(f.Deleg.AppendStakerForOperator(f.Ctx, OperatorBech[o], assetID, StakerID(2)) == nil)
+	}
 	return info, true
 }
 
